@@ -1,0 +1,23 @@
+//go:build verif
+
+// Verification hooks for property C03 (tunnel transparency). Add-only; compiled
+// only with -tags verif. Nothing here is called from production code.
+
+package martian
+
+import "time"
+
+// VerifC03SetTunnelGrace sets the period after which bicopy forcibly closes a
+// half-finished tunnel and returns the previous value.
+func VerifC03SetTunnelGrace(d time.Duration) time.Duration {
+	old := bicopyGracefulTimeout
+	bicopyGracefulTimeout = d
+	return old
+}
+
+// VerifC03CopyBufLen returns the length of a buffer handed out by copyBufPool.
+func VerifC03CopyBufLen() int {
+	bufp := copyBufPool.Get().(*[]byte) //nolint:forcetypeassert // It's *[]byte.
+	defer copyBufPool.Put(bufp)
+	return len(*bufp)
+}
